@@ -741,8 +741,7 @@ func c04Renderable(l []*c04Item, ctx int) bool {
 type c04Renderer struct {
 	sb     strings.Builder
 	plain  bool // no stylistic variation
-	oracle bool // also render destructuring parameters with array-literal defaults in arrow heads
-	// (there /repo declares the identifiers of the default value as parameters: known finding)
+	oracle bool // rendering for the oracle (since /repo dce4c26 the same as for the correspondence runs)
 }
 
 func (r *c04Renderer) w(s string) { r.sb.WriteString(s) }
@@ -879,16 +878,36 @@ func c04Groups(l []*c04Item) (lead []*c04Item, gs [][]*c04Item) {
 	return
 }
 
-func (r *c04Renderer) pattern(it *c04Item, allowRest bool, last bool, hasDefault bool) {
+func (r *c04Renderer) pattern(it *c04Item, allowRest bool, last bool, hasDefault bool, inner *c04Item) {
 	n := c04JsName(it.x)
+	w := func(pre, post string) {
+		r.w(pre + n)
+		if inner != nil {
+			r.w("=")
+			r.exprItem(inner)
+		}
+		r.w(post)
+	}
 	switch r.st(it, 5) {
 	case 1:
-		r.w("{" + n + "}")
+		w("{", "}")
 	case 2:
-		r.w("[" + n + "]")
+		if r.st(it, 10) >= 5 {
+			w("[[", "]]")
+		} else {
+			w("[", "]")
+		}
 	case 3:
-		r.w("{k:" + n + "}")
+		if r.st(it, 10) >= 5 {
+			w("{k:[", "]}")
+		} else {
+			w("{k:", "}")
+		}
 	case 4:
+		if inner != nil {
+			w("[,", "]")
+			return
+		}
 		if allowRest && last && !hasDefault {
 			// a rest element, plain or destructured (MarkFuncArgs must follow it as it follows any other list)
 			switch r.st(it, 15) / 5 {
@@ -907,30 +926,22 @@ func (r *c04Renderer) pattern(it *c04Item, allowRest bool, last bool, hasDefault
 	}
 }
 
-// c04PatternDefaultHazard: a destructuring parameter whose default value is rendered as an array
-// literal, inside a parenthesised (possible) arrow head
-func c04PatternDefaultHazard(g []*c04Item, mod int) bool {
-	s := g[0].style
-	if s < 0 {
-		s = -s
-	}
-	return len(g) > 1 && s%mod != 0 && !(mod == 4 && s%mod == 3)
-}
-
 func (r *c04Renderer) params(l []*c04Item, arrow bool) {
 	_, gs := c04Groups(l)
 	for i, g := range gs {
 		if i > 0 {
 			r.w(",")
 		}
-		if arrow && !r.oracle && c04PatternDefaultHazard(g, 5) {
-			r.w(c04JsName(g[0].x))
-		} else {
-			r.pattern(g[0], true, i == len(gs)-1, len(g) > 1)
+		// a default value inside the pattern ([c=a]=b, {k:[c=a]}=b) when the group has two or more initialiser items
+		def := g[1:]
+		var inner *c04Item
+		if len(def) >= 2 && r.st(g[0], 5) != 0 && r.st(def[0], 2) == 1 {
+			inner, def = def[0], def[1:]
 		}
-		if len(g) > 1 {
+		r.pattern(g[0], true, i == len(gs)-1, len(g) > 1, inner)
+		if len(def) > 0 {
 			r.w("=")
-			r.exprList(g[1:])
+			r.exprList(def)
 		}
 	}
 }
@@ -955,20 +966,22 @@ func (r *c04Renderer) parenHead(l []*c04Item) {
 		first = false
 		n := c04JsName(g[0].x)
 		sty := r.st(g[0], 4)
-		if !r.oracle && c04PatternDefaultHazard(g, 4) {
-			sty = 0
+		def := g[1:]
+		in := ""
+		if len(def) >= 2 && sty != 0 && sty != 3 && r.st(def[0], 2) == 1 && def[0].kind == c04KRef {
+			in, def = "="+c04JsName(def[0].x), def[1:]
 		}
 		switch sty {
 		case 1:
-			r.w("{" + n + "}")
+			r.w("{" + n + in + "}")
 		case 2:
-			r.w("[" + n + "]")
+			r.w("[" + n + in + "]")
 		default:
 			r.w(n)
 		}
-		if len(g) > 1 {
+		if len(def) > 0 {
 			r.w("=")
-			r.exprList(g[1:])
+			r.exprList(def)
 		}
 	}
 	if first {
@@ -980,6 +993,13 @@ func (r *c04Renderer) members(l []*c04Item) {
 	for i, it := range l {
 		switch it.kind {
 		case c04KFunc:
+			if it.nm < 0 && len(it.a) == 0 && r.st(it, 8) >= 4 {
+				// a class static block: a function scope without parameters (parse.go parseClassElement)
+				r.w("static{")
+				r.stmts(it.b)
+				r.w("}")
+				continue
+			}
 			if it.nm < 0 {
 				switch r.st(it, 4) {
 				case 1:
@@ -1008,10 +1028,6 @@ func (r *c04Renderer) members(l []*c04Item) {
 			default:
 				r.w(fmt.Sprintf("f%d=%s;", i, c04JsName(it.x)))
 			}
-		case c04KBlock:
-			r.w("static{")
-			r.stmts(it.b)
-			r.w("}")
 		default:
 			r.w(fmt.Sprintf("f%d=", i))
 			r.exprItem(it)
@@ -1088,7 +1104,7 @@ func (r *c04Renderer) stmts(l []*c04Item) {
 						if j > 0 {
 							r.w(",")
 						}
-						r.pattern(g[0], false, false, len(g) > 1)
+						r.pattern(g[0], false, false, len(g) > 1, nil)
 						if len(g) > 1 {
 							r.w("=")
 							r.exprList(g[1:])
@@ -1206,7 +1222,7 @@ func (r *c04Renderer) forStmt(it *c04Item) {
 				kw = "const "
 			}
 			r.w(kw)
-			r.pattern(gs[0][0], false, false, false)
+			r.pattern(gs[0][0], false, false, false, nil)
 			r.w([]string{"", " of ", " in "}[r.st(it, 4)])
 			r.exprList(gs[0][1:])
 		} else {
@@ -1222,7 +1238,7 @@ func (r *c04Renderer) forStmt(it *c04Item) {
 					rest = rest[:len(rest)/2]
 				}
 				if len(rest) > 0 || r.st(g[0], 5) != 0 {
-					r.pattern(g[0], false, false, true)
+					r.pattern(g[0], false, false, true, nil)
 					r.w("=")
 					r.exprList(rest)
 				} else {
